@@ -139,10 +139,6 @@ class WorkingTree3(PreDirStateWorkingTree):
 
     def unlock(self):
         """Unlock the working tree and perform cleanup operations."""
-        if not self._control_files.is_locked():
-            # Not locked by us: refuse (LockNotHeld) without unlocking the
-            # branch, whose lock was not taken through this tree.
-            return self._control_files.unlock()
         if self._control_files._lock_count == 1:
             # do non-implementation specific cleanup
             self._cleanup()
